@@ -8,7 +8,9 @@ is the subject of the row contracts in c11.py; here the obligation is the proper
 sentence: apply is called with S = symbol.value + address of the symbol's section, P = address of
 the relocated section + relocation.offset, the addend of the entry and exactly the `size` bytes at
 the offset, and its result replaces exactly those bytes (frame: every other byte of the section
-unchanged, for section data of any length)."""
+unchanged, for section data of any length).  The call under contract is the SECOND relocation the linker applies
+(an entry of the same type with another offset and addend in another section goes first), so state kept between
+entries is covered."""
 import types
 import z3
 from pyvc.engine import Contract, make_value
@@ -96,6 +98,14 @@ def _call_doreloc(fn, env, args, kwargs):
     else:
         sd = bytearray(sd)
     lk, rel = _build(env, sd, env.a_code, env.a_data, env.symval, env.offset, env.addend, env.same_section)
+    # history: the same linker has already applied another entry of the same relocation type (other section, other
+    # offset and addend) -- nothing of that earlier entry may leak into this one
+    from ppci.binutils.objectfile import RelocationEntry
+    warm = lk.dst.get_section("warm", create=True)
+    warm.address = 0x7000
+    warm.data = bytearray(range(200, 200 + env.size + 3))
+    fn(lk, RelocationEntry("spec_reloc", 8, "warm", 2, 99))
+    env.rec.pop("calls", None)
     fn(lk, rel)
     return env.code.data
 
